@@ -2757,28 +2757,25 @@ class Binop(Elemwise):
             columns = determine_column_projection(self, parent, dependents)
             columns = _convert_to_list(columns)
             columns = [col for col in self.columns if col in columns]
-            if (
-                isinstance(self.left, Expr)
-                and self.left.ndim > 1
-                and self.left.columns != columns
-            ):
-                left = self.left[columns]  # TODO: filter just the correct columns
-                changed = True
-            else:
-                left = self.left
-            if (
-                isinstance(self.right, Expr)
-                and self.right.ndim > 1
-                and self.right.columns != columns
-            ):
-                right = self.right[columns]  # TODO: filter just the correct columns
-                changed = True
-            else:
-                right = self.right
+            left, right = self.left, self.right
+            if isinstance(left, Expr) and left.ndim > 1:
+                cols = [col for col in left.columns if col in columns]
+                if cols != left.columns:
+                    left = left[cols]
+                    changed = True
+            if isinstance(right, Expr) and right.ndim > 1:
+                cols = [col for col in right.columns if col in columns]
+                if cols != right.columns:
+                    right = right[cols]
+                    changed = True
             if not changed:
                 return
 
-            return type(parent)(type(self)(left, right), *parent.operands[1:])
+            # keep the remaining parameters (method name, axis, level, fill_value)
+            return type(parent)(
+                self.substitute_parameters({"left": left, "right": right}),
+                *parent.operands[1:],
+            )
 
     def _node_label_args(self):
         return [self.left, self.right]
